@@ -1,6 +1,7 @@
 #![allow(dead_code, unused_imports, unused_variables)]
 mod codec;
 mod crypto;
+mod cryptodiff;
 mod driver;
 mod kstrace;
 mod observer;
@@ -9,6 +10,7 @@ mod providers;
 mod replay;
 mod treemath;
 mod world;
+mod x509;
 
 use rand::{rngs::StdRng, Rng, SeedableRng};
 
@@ -160,6 +162,21 @@ fn main() {
             0
         }
         "replay" => cmd_replay(&args),
+        "cryptodiff" => {
+            let out = arg(&args, "--out").expect("--out");
+            match cryptodiff::dump(&out, arg_u64(&args, "--seed", 1)) {
+                Ok(v) => { println!("{}", v); 0 }
+                Err(e) => { eprintln!("cryptodiff: {e}"); 2 }
+            }
+        }
+        "x509" => {
+            let input = arg(&args, "--in").expect("--in");
+            let out = arg(&args, "--out").expect("--out");
+            match x509::run(&input, &out, arg_u64(&args, "--threads", 8) as usize) {
+                Ok(v) => { println!("{}", v); 0 }
+                Err(e) => { eprintln!("x509: {e}"); 2 }
+            }
+        }
         "drive" => {
             // random driver: --out file.ndjson --seed S --num N --len L --parties P --features a,b
             let out = arg(&args, "--out").expect("--out");
